@@ -37,7 +37,7 @@ def x1_dispatch_vs_cancel(n=2):
     sl.finish()
     full = (1 << n) - 1
     init = z3.And(S["pending.m"] == full, S["running.m"] == 0, S["workids.head"] == 0, S["workids.tail"] == n,
-                  z3.ULE(S["callq.free"], n), z3.ULT(S["in.which"], n), *_refs_present(S),
+                  z3.ULE(S["callq.free"], n), z3.ULT(S["in.which"], n), *_refs_present(S), S["wakeup.pipe.n"] == 0,
                   *[z3.Or(S[f"futures.st.{i}"] == PENDING, S[f"futures.st.{i}"] == CANCELLED) for i in range(n)])
     put = S["callq.put"]
     safety = {
@@ -247,7 +247,7 @@ def x5_shutdown_nowait_vs_wait():
         "initial state: idle healthy pool (nothing pending, nothing in the pipes), executor object alive"])
 
 
-def x6_terminate_broken(n=2):
+def x6_terminate_broken(n=2, with_user=False):
     """The manager thread handles a broken pool (real terminate_broken -> kill_workers -> join_executor_internals)
     from a state in which some submitted futures may already have been cancelled by the user."""
     sl = ExecSlice(n_ids=n, n_workers=2, callq_cap=3, wakeup_cap=2)
@@ -256,8 +256,11 @@ def x6_terminate_broken(n=2):
     sl.obs.define("the_bpe", lambda a, k, t, S_: [Outcome(T, {}, ("rec", "Exc", {"t": BV(5), "?": T}), None, "obs")],
                   ("rec", "Exc", {"t": "int", "?": "bool"}), fused=True)
     sl.thread("M", "manager_terminate", [("o", "mt"), ("o", "obs")])
+    if with_user:
+        # a user thread submits (real submit) while the pool is being declared broken
+        sl.thread("U", "user_submit", [("o", "ex"), ("o", "obs")])
     sl.finish()
-    init = z3.And(*_consistent(S, n), S["pending.m"] != 0,
+    init = z3.And(*_consistent(S, n), S["pending.m"] != 0, *([z3.ULE(S["workids.tail"], n - 1), S["ptable.next"] == 2, S["processes.m"] == 3] if with_user else []),
                   S["ptable.alive"] == S["processes.m"], S["ptable.started"] == S["processes.m"], S["ptable.exitlock"] == 0,
                   S["ex._max_workers"] == 2, S["mgmt.sl.v"] == 1, S["shutdown_lock.v"] == 1,
                   z3.ULE(S["wakeup.pipe.n"], 1), z3.ULE(S["callq.free"], 3), S["resq.pipe.n"] == 0,
@@ -271,8 +274,54 @@ def x6_terminate_broken(n=2):
              "C02 after terminate_broken the pool is not flagged broken or workers are still registered":
                  z3.And(sl.all_ended(), z3.Or(z3.Not(S["flags.broken?"]), S["processes.m"] != 0, S["pending.m"] != 0)),
              "C01 terminate_broken blocks for ever": z3.Not(sl.all_ended())}
-    known = {"F6": z3.Or(*[z3.Or(S[f"futures.st.{i}"] == CANCELLED) for i in range(n)])}
-    witness = sl.all_ended()
+    if with_user:
+        # every future that submit() handed out is resolved once the manager is done, or submit() raised
+        stuck["C01/C02 a future accepted by submit() while the pool broke is never resolved"] = z3.And(sl.all_ended(), undone)
+    known = {}
+    witness = z3.And(sl.all_ended(), S["g.rejected"]) if with_user else sl.all_ended()
     return sl, dict(init=init, safety=safety, stuck=stuck, witness=witness, known=known, assumptions=[
         f"initial state: {n} work ids in any consistent bookkeeping state (queued ones PENDING or user-CANCELLED), 0..2 live workers",
         "kill_process_tree = kill + join (its tree walk is C06); the back-off loop of shutdown_workers is not entered (no live worker left)"])
+
+
+def x7_reusable_race():
+    """Two threads call the real get_reusable_executor concurrently (same or different arguments), from an
+    arbitrary singleton state satisfying the factory's invariant."""
+    from .slice_reusable import NEX, ReusableSlice
+    sl = ReusableSlice(2)
+    S = sl.S
+    for j in range(2):
+        sl.thread(f"T{j + 1}", "reuser", [("o", "RX"), ("o", "obs"), ("v", f"in.mw.{j}"), ("v", f"in.cfg.{j}")])
+    sl.finish()
+    has = S["rxg._executor#?"]
+    init = z3.And(
+        S["rxlock.v"] == 1, S["rxlock.cnt.0"] == 0,
+        *[z3.And(z3.UGE(S[f"in.mw.{j}"], 1), z3.ULE(S[f"in.mw.{j}"], 3), z3.ULE(S[f"in.cfg.{j}"], 1)) for j in range(2)],
+        z3.ULE(S["et.next"], 1), has == (S["et.next"] == 1), S["rxg._executor_kwargs#?"] == has,
+        z3.Implies(has, z3.And(S["rxg._executor#i"] == 0, S["rxg._executor_kwargs"] == S["et.kw.0"],
+                               z3.UGE(S["et.mw.0"], 1), z3.ULE(S["et.mw.0"], 3), z3.ULE(S["et.kw.0"], 1),
+                               z3.ULE(S["et.live"], 1), z3.ULE(S["et.broken"], 1),
+                               z3.UGT(S["rxg._next_executor_id"], S["et.id.0"]))),
+        z3.Implies(z3.Not(has), z3.And(S["et.live"] == 0, S["et.broken"] == 0)),
+        z3.ULE(S["rxg._next_executor_id"], 3), S["g.maxid"] == S["rxg._next_executor_id"],
+        z3.Implies(z3.Not(has), S["rxg._next_executor_id"] == 0) if False else z3.BoolVal(True))
+    cur_live = z3.Or(*[z3.And(S["rxg._executor#i"] == i, bit(S["et.live"], i, NEX), z3.Not(bit(S["et.broken"], i, NEX)))
+                       for i in range(NEX)])
+    same_args = z3.And(S["in.mw.0"] == S["in.mw.1"], S["in.cfg.0"] == S["in.cfg.1"])
+    safety = {
+        "C09 the factory failed (exception, lock misuse or unexpected recursion)": S["fail"] != 0,
+        "C09 a fresh executor was built while the previous instance was still alive (two live singletons)": S["g.two_live"],
+        "C09 executor ids are not strictly increasing": S["g.id_not_increasing"],
+        "C09 the previous instance was not shut down with wait=True": S["g.shutdown_not_waited"],
+        "C09 an executor was constructed outside the factory lock": S["g.created_unlocked"],
+    }
+    stuck = {
+        "C09 racing callers block each other for ever": z3.Not(sl.all_ended()),
+        "C09 after both calls the registered singleton is not a live executor": z3.And(sl.all_ended(), z3.Not(z3.And(S["rxg._executor#?"], cur_live))),
+        "C09 two callers with the same arguments hold different executors": z3.And(sl.all_ended(), same_args, S["g.got.0#i"] != S["g.got.1#i"]),
+    }
+    witness = z3.And(sl.all_ended(), S["g.got.0"], S["g.got.1"])
+    return sl, dict(init=init, safety=safety, stuck=stuck, witness=witness, assumptions=[
+        "executor constructor / shutdown(wait=True) / _resize are primitives here (decided in C05/C06/C10); <= 3 executor objects",
+        "initial singleton state: absent, or one instance (healthy, broken or shut down) built with arbitrary arguments; ids consistent",
+        "arguments: max_workers 1..3, one configuration parameter (timeout) with 2 values, reuse='auto', kill_workers=False"])
